@@ -92,6 +92,9 @@ var c04Inputs = []string{
 	"func g(x) { x + 1 }; func f(x) { g(x) }; println(f(1)); func sw() { g(0); g = func(x) { x * 100 } }",
 	"sw(); println(f(1))",
 	"func two2() { verif_counter() }; func one1() { two2() }; func zero0() { one1() }; println(zero0(), zero0(), zero0())",
+	// a name that is local to the function when first called and a global (defined afterwards) when called again
+	"func wr2(v) { gn = v; v }; println(wr2(5)); gn = 1; println(wr2(5), gn)",
+	"func rd3() { gm = 3; gm }; println(rd3()); gm = 1; println(rd3(), gm)",
 }
 
 type c04Cfg struct{ noReg bool }
